@@ -73,12 +73,14 @@ CLAIMS = {
              'in the scanner modules iterates in each of the 120 permutations; (b) all 720 orders of the comment '
              'blocks x orders of the dump children; (c) the declaration groups with any two swapped, rotated and '
              'reversed (typedef before/after the body for every compound); (d) sibling order is aliases first then by '
-             'name for every triple of names/kinds. The emitted bytes must be identical. The same scenario is also run '
-             'in fresh interpreters under five PYTHONHASHSEED values (concrete).',
+             'name for every triple of names/kinds; (e) every history of three scans over three dependency GIR files of '
+             'the same name (different directories, contents, time-stamp orders) sharing one cache directory sees what a '
+             'cold parse gives. The emitted bytes must be identical. The same scenario is also run in fresh interpreters '
+             'under five PYTHONHASHSEED values (concrete).',
         design_ref='DESIGN.md section 4, C16',
         note=CH_NOTE + ' Finite-choice inputs are fixed by solver-decided binary search (vlib/sym.py). Not covered: '
-             'set displays and sets inside library code, id()-based hashes, cold vs warm cache (pickle round trip), '
-             'dependency GIR parse order, other scenarios than the one built here.'),
+             'set displays and sets inside library code, id()-based hashes, byte identity of the GIR emitted from a cached vs '
+             'freshly parsed dependency (only the dependency namespace is compared), other scenarios than the one built here.'),
     'C03': dict(
         engine='CH',
         technique='solver-driven path exploration of the real scanner pipeline with CrossHair/z3 (finite-choice '
